@@ -359,6 +359,8 @@ class Prover:
             w = want
             if isinstance(c, ast.UnaryOp) and isinstance(c.op, ast.Not):
                 c, w = c.operand, not w
+            if isinstance(c, ast.Name) and ("#pred:" + c.id) in env:
+                c = env["#pred:" + c.id]
             if isinstance(c, ast.Call) and isinstance(c.func, ast.Name) and c.func.id in self.shapes and self.shapes[c.func.id][0] == "det":
                 kind, where, si, li = self.shapes[c.func.id]
                 try:
@@ -378,6 +380,10 @@ class Prover:
             while todo:
                 s = todo.pop(0)
                 if isinstance(s, ast.Expr) and isinstance(s.value, ast.Constant):
+                    continue
+                if isinstance(s, ast.Assign) and len(s.targets) == 1 and isinstance(s.targets[0], ast.Name) and isinstance(s.value, ast.Call) and isinstance(s.value.func, ast.Name) and s.value.func.id in self.shapes and self.shapes[s.value.func.id][0] == "det":
+                    # a predicate result held in a local: remember the call, `cond` looks through the name
+                    env["#pred:" + s.targets[0].id] = s.value
                     continue
                 if isinstance(s, ast.Assign) and len(s.targets) == 1 and isinstance(s.targets[0], ast.Name):
                     try:
